@@ -35,6 +35,14 @@ def gen(args) -> list:
     rnd = random.Random(seed)
     cals = [CalendarSystem.for_id(c) for c in CalendarSystem.ids]
     evs = []
+    # some workers run with another process time zone (conversions of instants are about UTC, whatever the local zone is)
+    tzname = {3: "JST-9", 7: "EST5EDT", 11: "IST-5:30"}.get(seed % 17)
+    if tzname:
+        import os as _os
+        import time as _time
+
+        _os.environ["TZ"] = tzname
+        _time.tzset()
     # a contiguous block of stdlib dates (exhaustive over the whole range in the thorough tier)
     for o in range(date_lo, date_hi):
         d = dt.date.fromordinal(o)
